@@ -24,6 +24,7 @@ import (
 	"fmt"
 	"io"
 	"net/http"
+	"net/url"
 	"strconv"
 	"strings"
 	"time"
@@ -644,6 +645,8 @@ func (s *S3Proxy) UploadPartCopy(ctx context.Context, input *s3.UploadPartCopyIn
 		input.SSECustomerKeyMD5 = nil
 	}
 
+	input.CopySource = encodeCopySource(input.CopySource)
+
 	output, err := s.client.UploadPartCopy(ctx, input)
 	if err != nil {
 		return s3response.CopyPartResult{}, handleError(err)
@@ -1001,6 +1004,28 @@ func (s *S3Proxy) GetObjectAttributes(ctx context.Context, input *s3.GetObjectAt
 	}, nil
 }
 
+// encodeCopySource URL-encodes a copy source for the x-amz-copy-source
+// header of the upstream request. The frontend hands the decoded
+// "bucket/key[?versionId=id]" over and the SDK sends the value as it is.
+func encodeCopySource(copySource *string) *string {
+	if copySource == nil || *copySource == "" {
+		return copySource
+	}
+	bucket, object, versionId, err := backend.ParseCopySource(*copySource)
+	if err != nil {
+		return copySource
+	}
+	segs := strings.Split(object, "/")
+	for i, seg := range segs {
+		segs[i] = strings.ReplaceAll(url.QueryEscape(seg), "+", "%20")
+	}
+	enc := bucket + "/" + strings.Join(segs, "/")
+	if versionId != "" {
+		enc += "?versionId=" + url.QueryEscape(versionId)
+	}
+	return &enc
+}
+
 func (s *S3Proxy) CopyObject(ctx context.Context, input s3response.CopyObjectInput) (*s3.CopyObjectOutput, error) {
 	if input.CacheControl != nil && *input.CacheControl == "" {
 		input.CacheControl = nil
@@ -1096,7 +1121,7 @@ func (s *S3Proxy) CopyObject(ctx context.Context, input s3response.CopyObjectInp
 		&s3.CopyObjectInput{
 			Metadata:                       input.Metadata,
 			Bucket:                         input.Bucket,
-			CopySource:                     input.CopySource,
+			CopySource:                     encodeCopySource(input.CopySource),
 			Key:                            input.Key,
 			CacheControl:                   input.CacheControl,
 			ContentDisposition:             input.ContentDisposition,
